@@ -1,85 +1,309 @@
-From Coq Require Import List ZArith NArith Lia Bool.
+From Coq Require Import List Arith Lia Bool.
 Import ListNotations.
 
-(* abstract tokens after tokenization: operators by level, atoms, groups (already nested), unary mods *)
-Inductive tok :=
-| TAtom (a : nat)
-| TOp (op : nat)          (* op code; level given by lvl *)
-| TMod (m : nat)
-| TGroup (g : list tok).
-
-Inductive ast :=
-| Atom (a : nat)
-| Un (m : nat) (e : ast)
-| Bin (op : nat) (l r : ast)
-| Grp (e : ast).           (* explicit group node so that inorder is exact *)
+Inductive tok := TAtom (a : nat) | TOp (o : nat) | TMod (m : nat) | TGroup (g : list tok).
+Inductive ast := Atom (a : nat) | Un (m : nat) (e : ast) | Bin (o : nat) (imp : bool) (l r : ast) | Grp (e : ast).
 
 Section P.
-Variable lvl : nat -> nat.   (* smaller = binds tighter; all ops have a level >= 1; 0 reserved? *)
+Variable lvl : nat -> nat.          (* smaller = binds tighter *)
+Variable mulop : nat.
 
-(* opCodeOrder last peek: Some last.  None = "" (no last) -> always recurse *)
-Definition order (last : option nat) (peek : nat) : Z :=
-  match last with
-  | None => 1
-  | Some l => if Nat.ltb (lvl l) (lvl peek) then (-1) else if Nat.eqb (lvl l) (lvl peek) then 0 else 1
-  end%Z.
+(* opCodeOrder last peek <= 0, i.e. "stop here": last binds tighter or equal *)
+Definition stops (last : option nat) (o : nat) : bool :=
+  match last with None => false | Some l => lvl l <=? lvl o end.
 
-Definition mulop := 0%nat. (* implied multiplication op code *)
-
-(* getNextExpr: fuel on depth of groups + mods *)
 Fixpoint parse (fuel : nat) (last : option nat) (ts : list tok) {struct fuel} : option (ast * list tok) :=
-  match fuel with
-  | O => None
-  | S fuel =>
-    let fix next_expr (f2 : nat) (ts : list tok) {struct f2} : option (ast * list tok) :=
-        match f2 with O => None | S f2 =>
-        match ts with
-        | TAtom a :: r => Some (Atom a, r)
-        | TGroup g :: r =>
-            match parse fuel None g with
-            | Some (e, []) => Some (Grp e, r)
-            | _ => None
-            end
-        | TMod m :: r =>
-            match next_expr f2 r with
-            | Some (e, r') => Some (Un m e, r')
-            | None => None
-            end
-        | _ => None
-        end end in
-    let fix loop (f3 : nat) (ret : ast) (ts : list tok) {struct f3} : option (ast * list tok) :=
-        match f3 with O => None | S f3 =>
-        match ts with
-        | [] => Some (ret, [])
-        | t :: r =>
-          let peek := match t with TOp o => Some (o, r) | TGroup _ => Some (mulop, ts) | _ => None end in
-          match peek with
-          | None => None
-          | Some (o, rest) =>
-            if (order last o <=? 0)%Z then Some (ret, ts)
-            else match parse fuel (Some o) rest with
-                 | Some (e, r') => loop f3 (Bin o ret e) r'
-                 | None => None
-                 end
-          end
-        end end in
+  match fuel with O => None | S f =>
     match ts with
     | [] => None
-    | _ => match next_expr (S (length ts)) ts with
-           | Some (e, r) => loop (S (length r)) e r
+    | _ => match next_expr f ts with
+           | Some (e, r) => loop f last e r
            | None => None
            end
     end
+  end
+with next_expr (fuel : nat) (ts : list tok) {struct fuel} : option (ast * list tok) :=
+  match fuel with O => None | S f =>
+    match ts with
+    | TAtom a :: r => Some (Atom a, r)
+    | TGroup g :: r => match parse f None g with Some (e, []) => Some (Grp e, r) | _ => None end
+    | TMod m :: r => match next_expr f r with Some (e, r') => Some (Un m e, r') | None => None end
+    | _ => None
+    end
+  end
+with loop (fuel : nat) (last : option nat) (ret : ast) (ts : list tok) {struct fuel} : option (ast * list tok) :=
+  match fuel with O => None | S f =>
+    match ts with
+    | [] => Some (ret, [])
+    | TOp o :: rest =>
+        if stops last o then Some (ret, ts)
+        else match parse f (Some o) rest with
+             | Some (e, r') => loop f last (Bin o false ret e) r'
+             | None => None
+             end
+    | TGroup _ :: _ =>
+        if stops last mulop then Some (ret, ts)
+        else match parse f (Some mulop) ts with
+             | Some (e, r') => loop f last (Bin mulop true ret e) r'
+             | None => None
+             end
+    | _ => None
+    end
   end.
-End P.
 
-Definition lvl (o : nat) : nat := match o with 0 => 3 | 1 => 5 (* + *) | 2 => 5 (* - *) | 3 => 3 (* / *) | 4 => 1 (* ^ *) | _ => 7 end.
-Definition p ts := parse lvl 50 None ts.
-(* a + b * c ^ d - e *)
-Eval vm_compute in p [TAtom 1; TOp 1; TAtom 2; TOp 0; TAtom 3; TOp 4; TAtom 4; TOp 2; TAtom 5].
-(* a - b - c *)
-Eval vm_compute in p [TAtom 1; TOp 2; TAtom 2; TOp 2; TAtom 3].
-(* 2(1+1) *)
-Eval vm_compute in p [TAtom 2; TGroup [TAtom 1; TOp 1; TAtom 1]].
-Eval vm_compute in p [TMod 0; TAtom 2; TOp 4; TAtom 2].
-Eval vm_compute in p [TMod 0].
+Fixpoint inorder (t : ast) : list tok :=
+  match t with
+  | Atom a => [TAtom a] | Un m e => TMod m :: inorder e | Grp e => [TGroup (inorder e)]
+  | Bin o imp l r => inorder l ++ (if imp then [] else [TOp o]) ++ inorder r
+  end.
+
+(* ---- soundness: nothing dropped, nothing invented ---- *)
+Lemma sound fuel :
+  (forall last ts t r, parse fuel last ts = Some (t, r) -> ts = inorder t ++ r) /\
+  (forall ts t r, next_expr fuel ts = Some (t, r) -> ts = inorder t ++ r) /\
+  (forall last ret ts t r, loop fuel last ret ts = Some (t, r) -> inorder ret ++ ts = inorder t ++ r).
+Proof.
+  induction fuel as [|f (IHp & IHn & IHl)]; [repeat split; intros; discriminate|].
+  repeat split.
+  - intros last ts t r H. cbn [parse] in H. destruct ts as [|t0 ts0]; [discriminate|].
+    destruct (next_expr f (t0 :: ts0)) as [[e r0]|] eqn:E; [|discriminate].
+    apply IHn in E. apply IHl in H. now rewrite E.
+  - intros ts t r H. cbn [next_expr] in H. destruct ts as [|[a|o|m|g] ts0]; try discriminate.
+    + inversion H; subst. reflexivity.
+    + destruct (next_expr f ts0) as [[e r']|] eqn:E; [|discriminate]. inversion H; subst. apply IHn in E. now rewrite E.
+    + destruct (parse f None g) as [[e [|x xs]]|] eqn:E; try discriminate. inversion H; subst.
+      apply IHp in E. rewrite app_nil_r in E. now rewrite E.
+  - intros last ret ts t r H. cbn [loop] in H. destruct ts as [|[a|o|m|g] ts0]; try discriminate.
+    + inversion H; subst. reflexivity.
+    + destruct (stops last o); [inversion H; subst; reflexivity|].
+      destruct (parse f (Some o) ts0) as [[e r']|] eqn:E; [|discriminate].
+      apply IHp in E. apply IHl in H. rewrite <- H. simpl. rewrite E, <- !app_assoc. reflexivity.
+    + destruct (stops last mulop); [inversion H; subst; reflexivity|].
+      destruct (parse f (Some mulop) (TGroup g :: ts0)) as [[e r']|] eqn:E; [|discriminate].
+      apply IHp in E. apply IHl in H. rewrite <- H. simpl. rewrite E, <- !app_assoc. reflexivity.
+Qed.
+
+
+Lemma parse_S f last ts : parse (S f) last ts =
+    match ts with
+    | [] => None
+    | _ => match next_expr f ts with Some (e, r) => loop f last e r | None => None end
+    end.
+Proof. reflexivity. Qed.
+Lemma next_S f ts : next_expr (S f) ts =
+    match ts with
+    | TAtom a :: r => Some (Atom a, r)
+    | TGroup g :: r => match parse f None g with Some (e, []) => Some (Grp e, r) | _ => None end
+    | TMod m :: r => match next_expr f r with Some (e, r') => Some (Un m e, r') | None => None end
+    | _ => None
+    end.
+Proof. reflexivity. Qed.
+Lemma loop_S f last ret ts : loop (S f) last ret ts =
+    match ts with
+    | [] => Some (ret, [])
+    | TOp o :: rest =>
+        if stops last o then Some (ret, ts)
+        else match parse f (Some o) rest with Some (e, r') => loop f last (Bin o false ret e) r' | None => None end
+    | TGroup _ :: _ =>
+        if stops last mulop then Some (ret, ts)
+        else match parse f (Some mulop) ts with Some (e, r') => loop f last (Bin mulop true ret e) r' | None => None end
+    | _ => None
+    end.
+Proof. reflexivity. Qed.
+
+(* ---- fuel monotonicity ---- *)
+Lemma mono fuel :
+  (forall last ts res, parse fuel last ts = Some res -> parse (S fuel) last ts = Some res) /\
+  (forall ts res, next_expr fuel ts = Some res -> next_expr (S fuel) ts = Some res) /\
+  (forall last ret ts res, loop fuel last ret ts = Some res -> loop (S fuel) last ret ts = Some res).
+Proof.
+  induction fuel as [|f (IHp & IHn & IHl)]; [repeat split; intros; discriminate|].
+  repeat split.
+  - intros last ts res H. rewrite parse_S in H. rewrite (parse_S (S f)). destruct ts as [|t0 ts0]; [discriminate|].
+    destruct (next_expr f (t0 :: ts0)) as [[e r0]|] eqn:E; [|discriminate].
+    rewrite (IHn _ _ E). now apply IHl.
+  - intros ts res H. rewrite next_S in H. rewrite (next_S (S f)). destruct ts as [|[a|o|m|g] ts0]; try discriminate; auto.
+    + destruct (next_expr f ts0) as [[e r']|] eqn:E; [|discriminate]. now rewrite (IHn _ _ E).
+    + destruct (parse f None g) as [[e r']|] eqn:E; [|discriminate]. now rewrite (IHp _ _ _ E).
+  - intros last ret ts res H. rewrite loop_S in H. rewrite (loop_S (S f)). destruct ts as [|[a|o|m|g] ts0]; try discriminate; auto.
+    + destruct (stops last o); auto.
+      destruct (parse f (Some o) ts0) as [[e r']|] eqn:E; [|discriminate]. rewrite (IHp _ _ _ E). now apply IHl.
+    + destruct (stops last mulop); auto.
+      destruct (parse f (Some mulop) (TGroup g :: ts0)) as [[e r']|] eqn:E; [|discriminate]. rewrite (IHp _ _ _ E). now apply IHl.
+Qed.
+
+Lemma mono_le f f' : f <= f' ->
+  (forall last ts res, parse f last ts = Some res -> parse f' last ts = Some res) /\
+  (forall ts res, next_expr f ts = Some res -> next_expr f' ts = Some res) /\
+  (forall last ret ts res, loop f last ret ts = Some res -> loop f' last ret ts = Some res).
+Proof.
+  induction 1 as [|f' Hle (IHp & IHn & IHl)]; [repeat split; auto|].
+  destruct (mono f') as (Mp & Mn & Ml). repeat split; intros; [apply Mp, IHp|apply Mn, IHn|apply Ml, IHl]; assumption.
+Qed.
+
+(* ---- precedence well-formedness ---- *)
+Definition le_root (t : ast) (n : nat) := match t with Bin o _ _ _ => lvl o <= n | _ => True end.
+Definition lt_root (t : ast) (n : nat) := match t with Bin o _ _ _ => lvl o < n | _ => True end.
+Definition primary (t : ast) := match t with Bin _ _ _ _ => False | _ => True end.
+Definition starts_group (t : ast) := match inorder t with TGroup _ :: _ => True | _ => False end.
+Fixpoint wp (t : ast) : Prop :=
+  match t with
+  | Atom _ => True | Grp e => wp e | Un _ e => primary e /\ wp e
+  | Bin o imp l r => wp l /\ wp r /\ le_root l (lvl o) /\ lt_root r (lvl o) /\
+                     (imp = true -> o = mulop /\ starts_group r)
+  end.
+Definition lt_last (t : ast) (last : option nat) := match last with None => True | Some l => lt_root t (lvl l) end.
+Definition stop_ok (last : option nat) (rest : list tok) :=
+  match rest with [] => True | TOp o :: _ => stops last o = true | TGroup _ :: _ => stops last mulop = true | _ => False end.
+Definition cont_ok (t : ast) (rest : list tok) := match t with Bin o _ _ _ => stop_ok (Some o) rest | _ => True end.
+
+Fixpoint cost (t : ast) : nat :=
+  match t with Atom _ => 2 | Un _ e => S (S (cost e)) | Grp e => S (S (S (cost e))) | Bin _ _ l r => cost l + cost r + 3 end.
+
+Lemma cost_ge t : 2 <= cost t.
+Proof. induction t; simpl; lia. Qed.
+
+Lemma loop_stop f last t rest : stop_ok last rest -> last <> None \/ rest = [] -> loop (S f) last t rest = Some (t, rest).
+Proof.
+  intros Hs Hl. cbn [loop]. destruct rest as [|[a|o|m|g] rest]; try reflexivity; try (now destruct Hs).
+  - simpl in Hs. now rewrite Hs.
+  - simpl in Hs. now rewrite Hs.
+Qed.
+
+(* completeness, mutually for primaries (next_expr) and arbitrary trees (parse/loop) *)
+Lemma complete t : wp t ->
+  (primary t -> forall f rest, cost t <= S f -> next_expr f (inorder t ++ rest) = Some (t, rest)) /\
+  (forall last rest f res, lt_last t last -> cont_ok t rest ->
+      loop f last t rest = Some res -> parse (f + cost t) last (inorder t ++ rest) = Some res).
+Proof.
+  induction t as [a | m e IHe | o imp l IHl r IHr | e IHe]; intros Hwp.
+  - (* Atom *) split.
+    + intros _ f rest Hf. destruct f; [simpl in Hf; lia|]. reflexivity.
+    + intros last rest f res _ _ H. replace (f + cost (Atom a)) with (S (S f)) by (simpl; lia).
+      cbn [parse inorder app]. cbn [next_expr]. destruct (mono_le f (S f) (le_S _ _ (le_n _))) as (_ & _ & Ml). now apply Ml.
+  - (* Un *) destruct Hwp as (Hpe & Hwe). destruct (IHe Hwe) as (IHn & _). split.
+    + intros _ f rest Hf. pose proof (cost_ge e). destruct f; [simpl in Hf; lia|]. cbn [inorder app next_expr].
+      rewrite IHn; [reflexivity|assumption|simpl in Hf; lia].
+    + intros last rest f res _ _ H. replace (f + cost (Un m e)) with (S (S (f + cost e))) by (simpl; lia).
+      cbn [parse inorder app]. cbn [next_expr]. rewrite IHn; [|assumption|lia].
+      destruct (mono_le f (S (f + cost e))) as (_ & _ & Ml); [lia|]. now apply Ml.
+  - (* Bin *) destruct Hwp as (Hwl & Hwr & Hle & Hlt & Himp).
+    destruct (IHl Hwl) as (_ & IHlp). destruct (IHr Hwr) as (_ & IHrp).
+    split; [intros []|].
+    intros last rest f res Hlast Hcont H.
+    (* parse of r under last = Some o returns (r, rest) *)
+    assert (Hr : parse (S (cost r)) (Some o) (inorder r ++ rest) = Some (r, rest)).
+    { replace (S (cost r)) with (1 + cost r) by lia. apply IHrp; [exact Hlt| |].
+      - destruct r as [| | o2 i2 l2 r2|]; simpl; auto. simpl in Hlt. simpl in Hcont.
+        destruct rest as [|[a|o'|m'|g'] rest']; simpl in *; auto; apply Nat.leb_le in Hcont; apply Nat.leb_le; lia.
+      - apply loop_stop; [exact Hcont|left; discriminate]. }
+    (* one loop step from l *)
+    set (F := f + S (cost r)).
+    assert (Hstep : loop (S F) last l ((if imp then [] else [TOp o]) ++ inorder r ++ rest) = Some res).
+    { assert (Hns : stops last o = false).
+      { destruct last as [l0|]; [|reflexivity]. simpl in Hlast. simpl. apply Nat.leb_gt. exact Hlast. }
+      destruct (mono_le (S (cost r)) F) as (Mp & _ & _); [unfold F; lia|].
+      destruct (mono_le f F) as (_ & _ & Ml); [unfold F; lia|].
+      destruct imp.
+      - destruct (Himp eq_refl) as (-> & Hsg). unfold starts_group in Hsg.
+        cbn [app]. destruct (inorder r) as [|[a|o'|m'|g'] ir] eqn:Eir; try contradiction.
+        cbn [app] in Hr. cbn [app]. rewrite loop_S, Hns. rewrite (Mp _ _ _ Hr). now apply Ml.
+      - cbn [app]. rewrite loop_S, Hns. rewrite (Mp _ _ _ Hr). now apply Ml. }
+    destruct (mono_le (S F + cost l) (f + cost (Bin o imp l r))) as (Mp' & _ & _); [unfold F; simpl; lia|]. apply Mp'.
+    cbn [inorder]. rewrite <- !app_assoc. apply IHlp; [| |exact Hstep].
+    + destruct last as [l0|]; [|exact I]. simpl in *. destruct l; simpl in *; auto. lia.
+    + destruct l as [| | o1 i1 l1 r1|]; simpl; auto. simpl in Hle.
+      destruct imp.
+      * destruct (Himp eq_refl) as (-> & Hsg). unfold starts_group in Hsg. cbn [app].
+        destruct (inorder r) as [|[a|o'|m'|g'] ir]; try contradiction. simpl. now apply Nat.leb_le.
+      * simpl. now apply Nat.leb_le.
+  - (* Grp *) simpl in Hwp. destruct (IHe Hwp) as (_ & IHp).
+    assert (He : forall f, cost e <= f -> parse (S f) None (inorder e) = Some (e, [])).
+    { intros f Hf. pose proof (IHp None [] 1 (e, []) I) as H. rewrite app_nil_r in H.
+      destruct (mono_le (1 + cost e) (S f)) as (Mp & _ & _); [lia|]. apply Mp. apply H.
+      - destruct e; simpl; auto.
+      - apply loop_stop; [exact I|now right]. }
+    split.
+    + intros _ f rest Hf. destruct f; [simpl in Hf; lia|]. cbn [inorder app next_expr].
+      destruct f; [simpl in Hf; lia|]. rewrite He by (simpl in Hf; lia). reflexivity.
+    + intros last rest f res _ _ H. replace (f + cost (Grp e)) with (S (S (S (f + cost e)))) by (simpl; lia).
+      cbn [parse inorder app]. cbn [next_expr]. rewrite He by lia.
+      destruct (mono_le f (S (S (f + cost e)))) as (_ & _ & Ml); [lia|]. now apply Ml.
+Qed.
+
+Theorem parse_complete t : wp t -> parse (S (cost t)) None (inorder t) = Some (t, []).
+Proof.
+  intros Hwp. destruct (complete t Hwp) as (_ & Hp).
+  pose proof (Hp None [] 1 (t, []) I) as H. rewrite app_nil_r in H. apply H.
+  - destruct t; simpl; auto.
+  - apply loop_stop; [exact I|now right].
+Qed.
+
+(* ---- soundness of the precedence structure ---- *)
+Definition head_ok (ret : ast) (ts : list tok) :=
+  match ts with TOp o :: _ => le_root ret (lvl o) | TGroup _ :: _ => le_root ret (lvl mulop) | _ => True end.
+
+Lemma inorder_nonempty t : inorder t <> [].
+Proof. induction t; simpl; try discriminate. destruct (inorder t1); [contradiction|discriminate]. Qed.
+
+Lemma wp_sound fuel :
+  (forall last ts t r, parse fuel last ts = Some (t, r) -> wp t /\ lt_last t last /\ stop_ok last r) /\
+  (forall ts t r, next_expr fuel ts = Some (t, r) -> wp t /\ primary t) /\
+  (forall last ret ts t r, loop fuel last ret ts = Some (t, r) -> wp ret -> lt_last ret last -> head_ok ret ts ->
+                           wp t /\ lt_last t last /\ stop_ok last r).
+Proof.
+  induction fuel as [|f (IHp & IHn & IHl)]; [repeat split; intros; discriminate|].
+  split; [|split].
+  - intros last ts t r H. rewrite parse_S in H. destruct ts as [|t0 ts0]; [discriminate|].
+    destruct (next_expr f (t0 :: ts0)) as [[e r0]|] eqn:E; [|discriminate].
+    destruct (IHn _ _ _ E) as (Hwe & Hpe). apply IHl in H; auto.
+    + destruct last; simpl; auto. destruct e; simpl in *; auto. contradiction.
+    + destruct r0 as [|[a|o|m|g] r0]; simpl; auto; destruct e; simpl in *; auto; contradiction.
+  - intros ts t r H. rewrite next_S in H. destruct ts as [|[a|o|m|g] ts0]; try discriminate.
+    + inversion H; subst. simpl. auto.
+    + destruct (next_expr f ts0) as [[e r']|] eqn:E; [|discriminate]. inversion H; subst.
+      destruct (IHn _ _ _ E). simpl. auto.
+    + destruct (parse f None g) as [[e [|x xs]]|] eqn:E; try discriminate. inversion H; subst.
+      destruct (IHp _ _ _ _ E) as (Hw & _). simpl. auto.
+  - intros last ret ts t r H Hwr Hlr Hh. rewrite loop_S in H. destruct ts as [|[a|o|m|g] ts0]; try discriminate.
+    + inversion H; subst. simpl. auto.
+    + destruct (stops last o) eqn:Es; [inversion H; subst; simpl; auto|].
+      destruct (parse f (Some o) ts0) as [[e r']|] eqn:E; [|discriminate].
+      destruct (IHp _ _ _ _ E) as (Hwe & Hle & Hst). simpl in Hle.
+      apply IHl in H; auto.
+      * simpl. repeat split; auto; discriminate.
+      * destruct last as [l0|]; simpl; auto. simpl in Es. apply Nat.leb_gt in Es. exact Es.
+      * destruct r' as [|[a'|o'|m'|g'] r'']; simpl in *; auto; now apply Nat.leb_le.
+    + destruct (stops last mulop) eqn:Es; [inversion H; subst; simpl; auto|].
+      destruct (parse f (Some mulop) (TGroup g :: ts0)) as [[e r']|] eqn:E; [|discriminate].
+      destruct (IHp _ _ _ _ E) as (Hwe & Hle & Hst). simpl in Hle.
+      destruct (sound f) as (Sp & _ & _). pose proof (Sp _ _ _ _ E) as Hin.
+      apply IHl in H; auto.
+      * simpl. repeat split; auto. unfold starts_group.
+        pose proof (inorder_nonempty e). destruct (inorder e) as [|x xs]; [contradiction|].
+        simpl in Hin. inversion Hin; subst. exact I.
+      * destruct last as [l0|]; simpl; auto. simpl in Es. apply Nat.leb_gt in Es. exact Es.
+      * destruct r' as [|[a'|o'|m'|g'] r'']; simpl in *; auto; now apply Nat.leb_le.
+Qed.
+
+Theorem parse_sound fuel ts t : parse fuel None ts = Some (t, []) -> inorder t = ts /\ wp t.
+Proof.
+  intros H. destruct (sound fuel) as (Sp & _ & _). destruct (wp_sound fuel) as (Wp & _ & _).
+  pose proof (Sp _ _ _ _ H) as E. rewrite app_nil_r in E. destruct (Wp _ _ _ _ H) as (Hw & _). auto.
+Qed.
+
+(* uniqueness of the parse under the order of operations *)
+Corollary wp_unique t1 t2 : wp t1 -> wp t2 -> inorder t1 = inorder t2 -> t1 = t2.
+Proof.
+  intros H1 H2 E. pose proof (parse_complete t1 H1) as P1. pose proof (parse_complete t2 H2) as P2.
+  rewrite E in P1.
+  destruct (mono_le (S (cost t1)) (S (cost t1) + S (cost t2))) as (M1 & _ & _); [lia|].
+  destruct (mono_le (S (cost t2)) (S (cost t1) + S (cost t2))) as (M2 & _ & _); [lia|].
+  apply M1 in P1. apply M2 in P2. rewrite P1 in P2. now inversion P2.
+Qed.
+End P.
+Check parse_complete.
+Check parse_sound.
+Check wp_unique.
+Print Assumptions wp_unique.
+Print Assumptions parse_complete.
